@@ -202,6 +202,31 @@ HOSTILE_SENDERS = [dict(h=2, p=1), dict(h=3, p=1), dict(h=2, p=2), dict(h=3, p=2
 HOSTILE_PAYLOADS = [b'', b'\0', b'\0\0\0\0', b'/a', b'#bundle\0', b'\xff' * 7, b'/a\0\0,i\0\0', b'#bundle\0' + bytes(7) + b'\1\xff\xff\xff\xfc']
 
 
+def deep_bundle(depth, inner=b''):
+    """a legal OSC bundle nested `depth` levels deep (20 bytes per level) around `inner` (a message, or nothing)"""
+    d = inner
+    for _ in range(depth):
+        d = b'#bundle\0' + bytes(7) + b'\1' + ((len(d).to_bytes(4, 'big') + d) if d else b'')
+    return d
+
+
+def deep_histories(thorough=False):
+    """Degenerate datagrams: bundles nested 8 .. 1200 levels deep (up to 24 KB, legal UDP) around a message or nothing,
+    each followed by an ordinary message that must still be delivered; depths up to Dispatch.MaxNest must deliver
+    the inner message, deeper ones only must not raise, hang or stop the receiver."""
+    plain = dict(src=dict(h=0, p=0), rport=0, tmpl=[], os=False, beh=QUIET)
+    ok = dict(h=1, p=5001)
+    out = []
+    for depths in ([1, 8, 16, 17, 64], [200, 480], [500, 520], [700]) + (([400, 1200], [2000]) if thorough else ()):
+        for inner in (b'/a\0\0,i\0\0\0\0\0\7', b''):
+            ev = [dict(op='create', kind='exact', path=codes('/a'), **plain), dict(op='create', kind='matching', path=codes('/a'), **plain)]
+            for k, dep in enumerate(depths):
+                ev.append(dict(op='recv', dg=list(deep_bundle(dep, inner)), src=ok, via=1))
+                ev.append(dict(op='recv', v=g.M('/a', [g.I(k)]), src=ok, via=1))
+            out.append(ev)
+    return out
+
+
 def hostile_histories():
     """Hostile datagrams at socket level (run through real UDP loopback): empty payloads and garbage from other
     loopback addresses, with a source port NUMBER equal / not equal to the library's own ports, to the main and to
@@ -303,7 +328,8 @@ def sim_histories(ctx, num, cfg='DispatchModel_sim.cfg', depth=14, seed_off=1, s
         for act, st in b[1:]:
             op = st['op']
             if op['op'] == 'hostile':
-                ev.append(dict(op='recv', src=op['src'], via=op['via'], dg=[] if op['k'] == 'empty' else [255] * 7))
+                dg = {'empty': b'', 'garbage': b'\xff' * 7, 'deep': deep_bundle(600, b'/a\0\0,\0\0\0')}[op['k']]
+                ev.append(dict(op='recv', src=op['src'], via=op['via'], dg=list(dg)))
             elif op['op'] == 'recv':
                 m = op['m']
                 ev.append(dict(op='recv', src=op['src'], via=op['via'], v=dict(t='m', a=m['a'], args=m['args'])))
@@ -315,7 +341,8 @@ def sim_histories(ctx, num, cfg='DispatchModel_sim.cfg', depth=14, seed_off=1, s
 
 
 def fault_datagrams(ctx):
-    r = tlc.run('OscFaultModel', 'OscFaultModel_emit.cfg', os.path.join(ctx.work, 'm5'), workers=1, timeout=600)
+    r = tlc.run('OscFaultModel', 'OscFaultModel_emit.cfg', os.path.join(ctx.work, 'm5'), workers=1, timeout=600,
+                env={'JAVA_TOOL_OPTIONS': '-Xss64m'})
     if not r.ok:
         raise MachineryError('OscFaultModel emit failed: %s\n%s' % (r.violated, r.output[-2000:]))
     out = []
@@ -508,7 +535,8 @@ def run(ctx):
     # design models, side by side (each TLC run in a work directory of its own)
     def mc(sub, module, cfg, cover, what, label=None):
         try:
-            r = tlc.run(module, cfg, os.path.join(ctx.work, sub), workers=max(2, NCPU // 2), coverage=True, timeout=1500)
+            r = tlc.run(module, cfg, os.path.join(ctx.work, sub), workers=max(2, NCPU // 2), coverage=True, timeout=1500,
+                        env={'JAVA_TOOL_OPTIONS': '-Xss64m'})      # deep recursion: datagrams nested dozens of levels
         except tlc.TlcError as e:
             raise tlc.TlcError('%s/%s: %s' % (module, cfg, e))
         run_ = dict(module=module, cfg=cfg, **r.summary())
@@ -559,6 +587,13 @@ def run(ctx):
     hs += [dict(kind='dispatch', ev=h, src='model') for h in sims]
     hs += [dict(kind='dispatch', ev=h, src='directed') for h in multipath_histories()]
     hs += [dict(kind='dispatch', ev=h, src='hostile/udp', udp=True) for h in hostile_histories()]
+    # (expensive to decode in TLC: spread them over the validation batches)
+    deep = deep_histories(thorough)
+    step = max(1, len(hs) // (2 * len(deep) + 1))
+    for k, h in enumerate(deep):
+        hs.insert((2 * k + 1) * step, dict(kind='dispatch', ev=h, src='deep'))
+        if k % 2 == 0:
+            hs.insert((2 * k + 2) * step, dict(kind='dispatch', ev=h, src='deep/udp', udp=True))
     ctx.cov['spec_behaviours_replayed'] = sum(1 for h in hs if h['src'] == 'model')
     # every fault datagram once, each followed by a normal message
     plain = dict(src=dict(h=0, p=0), rport=0, tmpl=[], os=False, beh=QUIET)
